@@ -18,7 +18,7 @@
 (***************************************************************************)
 EXTENDS Extend, TLC
 
-CONSTANTS T, Rad2, Lvs, Seeded, Build, MaxCalls, Worlds, Problems, RestoreRng
+CONSTANTS T, Rad2, Lvs, Seeded, Build, MaxCalls, Worlds, Problems, Region, RestoreRng
 
 VARIABLES valid, probs, pd, road, acc, pc, now, rng, src, res, ncalls, nbuilt, hist
 
@@ -85,7 +85,7 @@ LinkFold(q, k, links, a) ==
 
 SampleMilestone(q) ==
   /\ pc = "build" /\ now <= Build
-  /\ q \in Pts(T)
+  /\ q \in Region
   /\ now' = now + 1
   /\ hist' = Append(hist, [c |-> "ps", q |-> q])
   /\ IF q \notin valid
@@ -152,7 +152,7 @@ Solve ==
 Next ==
   \/ \E i \in 1 .. 2 : Setup(i) \/ SetPd(i)
   \/ ConstructBegin \/ ConstructEnd
-  \/ \E q \in Pts(T) : SampleMilestone(q)
+  \/ \E q \in Region : SampleMilestone(q)
   \/ Solve
 
 Spec == Init /\ [][Next]_vars
@@ -172,6 +172,10 @@ C03_EdgesCovered ==
 C03_PathCovered ==
   IsOk => /\ CoversLat(T, acc, res.path[1], res.path[2], Lvs)
           /\ \A k \in 1 .. (Len(res.chain) - 1) : res.chain[k + 1] \in road[res.chain[k]].e
+\* C04: milestones are samples, the path is the start plus milestones
+C04_InRegion ==
+  /\ \A i \in 1 .. NM : road[i].s \in Region
+  /\ (IsOk /\ probs[pd].start \in Region) => \A k \in 1 .. Len(res.path) : res.path[k] \in Region
 C05_Radius ==
   /\ \A i \in 1 .. NM : \A j \in road[i].e : 2 * D(T, road[i].s, road[j].s) < Rad2
   /\ IsOk => \A k \in 1 .. (Len(res.path) - 1) : 2 * D(T, res.path[k], res.path[k + 1]) < Rad2
